@@ -25,6 +25,33 @@ CLAIMED = {
         "value; 20-sweep Lattice.finalize_constraints() only contract-checked; one listed known finding exempted by "
         "configuration class; beyond the enumerated constants the evidence is sampling.",
         "DESIGN.md section 3 (C01)"),
+    "C02": (
+        "TLA+ definitions of hypercube and simplex interpolation with their properties model-checked by TLC; real "
+        "Lattice layer outputs validated by TLC against the definitions",
+        "TLC checks on every (shape, 0/1 kernel, grid point) of the model that both schemes reproduce vertex values, are "
+        "convex combinations (weights >= 0 summing to 1, output within [min, max] kernel), agree on vertices and "
+        "axis-parallel edges, are single-valued on shared cell faces and independent of residual tie order, and - as "
+        "action properties across every grid step - inherit monotonicity from the kernel (both schemes) and "
+        "Edgeworth trust (hypercube). Every enumerated (shape, basis/dense kernel, point) and random shapes up to "
+        "rank 9 go through tfl.layers.Lattice (both schemes, tensor/list inputs, extra batch dimension, clip on/off, "
+        "units 1 and >1); TLC recomputes the interpolation exactly for each recorded event.",
+        "Inputs on dyadic grids (coarser for high rank so the exact value fits 32-bit rationals); outputs compared "
+        "within 6/2^14; rank > 9 not covered.",
+        "DESIGN.md section 3 (C02)"),
+    "C07": (
+        "TLA+ state machine of all interleavings of kernel/scale updates and constraint applications checked by TLC; "
+        "real layer histories validated statefully by TLC",
+        "TLC explores every interleaving of UpdateKernel / UpdateScale / ConstrainKernel / ConstrainScale (two update "
+        "rounds) over all small kernels, scales of every sign pattern (including 0), monotonicity subsets, bound modes "
+        "and clip_inputs, with an exact rational evaluation of the layer ((w, P) representation of the dims-th root), "
+        "and checks that whenever both constraints have been applied since the last update the output is bounded and "
+        "monotone on the whole grid, and that the constraints are idempotent. Real layers (kernels/scales stacked as "
+        "units) are driven through the same histories in all three orders (kernel-scale, scale-kernel, "
+        "finalize_constraints); TLC validates each per-unit trace: clean/dirty bookkeeping, conformance of the layer "
+        "output with the spec's evaluation (fixed point), boundedness and monotonicity of real outputs.",
+        "Conformance evaluation in 12-bit fixed point (tolerance ~1e-2) for bounded magnitudes only; monotonicity / "
+        "bounds checked on the recorded grid points; the repaired defect is listed as fixed.",
+        "DESIGN.md section 3 (C07)"),
     "C06": (
         "TLA+ state machine of the partial-order projection (DFS topological sort, min/max passes) and of "
         "linear_lib.project / categorical project, model-checked over all DAGs; TLC-enumerated cases replayed; results "
